@@ -361,7 +361,10 @@ fn check_payload_slice<'p>(ck: &mut Ck, entry: &str, m: &r::M6, p: &'p [u8], got
             return Ok(None);
         }
         (true, Err(e)) => {
-            ensure!(ck, len_err_ok(&e, m.fixed_len, p.len(), Layer::Icmpv6), entry, L, "error-values", kn, "expected required_len {} len {}, got {:?}", m.fixed_len, p.len(), e);
+            // `Icmpv6Slice::payload_slice()` was handed the whole message: counting from the payload start or
+            // from the message start (8 header bytes more on both sides) are both true statements
+            let ok = len_err_ok(&e, m.fixed_len, p.len(), Layer::Icmpv6) || (entry == "Icmpv6Slice::payload_slice" && len_err_ok(&e, m.fixed_len + 8, p.len() + 8, Layer::Icmpv6));
+            ensure!(ck, ok, entry, L, "error-values", kn, "expected required_len {} len {}, got {:?}", m.fixed_len, p.len(), e);
             return Ok(None);
         }
         (false, Ok(v)) => v,
